@@ -25,6 +25,13 @@ RUNS = {
     "q_mod": ("Modified(0) \\cup NXModified(0)", "AroundOne"),
     "q_nx": ("NXDeviations(TopKindsNX) \\cup NXShapes({0, 1, 2, 3, 4, 5})", "AroundOne"),
     "q_nxm": ("NXEntries(0) \\cup NXRegs(0)", "AroundOne"),
+    "q_hist": ('Histories("match", ExactTCP, NwSteps("nw_src") \\cup NwSteps("nw_dst") \\cup FieldSteps, 2, "pre") \\cup '
+               'Histories("match", IPOnly, NwSteps("nw_src") \\cup {HStep(Wild, "wildcards")}, 2, "pre")', "AroundOne"),
+    "q_hist2": ('Histories("flow_mod", ExactTCP, NwSteps("nw_dst") \\cup {HStep(("nw_proto" :> <<>>), "attr"), '
+                'HStep(("tp_dst" :> <<>>), "attr"), HStep(Wild, "wildcards")}, 2, "pre") \\cup '
+                'UNION {Histories(k, ExactTCP, NwSteps("nw_src") \\cup FieldSteps, 1, "post") : k \\in DOMAIN MatchPos} \\cup '
+                'UNION {PrePost(k, ExactTCP, NwSteps("nw_src")) : k \\in {"flow_removed", "sreq_flow", "srep_flow"}} \\cup Cycles(0)',
+                "AroundOne"),
     "q_recv": ("{}", "AroundOne", "Received({33, 63})"),
     # thorough tier (in addition)
     "t_pairs": ("Pairs(%s)" % OF, "AroundOne"),
@@ -34,6 +41,11 @@ RUNS = {
     "t_match_other": ('UNION {MatchIn(k, MFlagsAll(0) \\cup MBits(BitsT) \\cup MTypes(0) \\cup MVals(0), "t") : '
                       'k \\in MatchKinds \\ {"flow_mod"}}', "AroundOne"),
     "t_long": ("Longest(0)", "AroundOne"),
+    "t_hist": ('UNION {Histories(k, b, NwStepsT("nw_src") \\cup NwStepsT("nw_dst") \\cup FieldStepsT, 2, "pre") : '
+               'k \\in {"match", "flow_mod", "srep_flow"}, b \\in {ExactTCP, IPOnly, ARP}} \\cup '
+               'Histories("match", ExactTCP, NwSteps("nw_src") \\cup NwSteps("nw_dst"), 3, "pre") \\cup '
+               'UNION {PrePost(k, ExactTCP, NwStepsT("nw_src") \\cup NwStepsT("nw_dst") \\cup FieldStepsT) : k \\in DOMAIN MatchPos}',
+               "AroundOne"),
     "t_recv": ("{}", "AroundBoth", "Received({32, 33, 40, 62, 63})"),
     "t_nx": ("NXPairs(TopKindsNX) \\cup NXShapes(0..9) \\cup NXEntriesT(0)", "AroundOne"),
 }
